@@ -1,6 +1,96 @@
-(* C20: placeholder until the proofs are merged; a concrete run of the model. *)
-From BCL Require Import Model.Api.
+(* C20: Layout, comments and redundant parentheses never change meaning (lexer part).
+
+   A '#' comment ends at the next CR or LF and nowhere else (any bytes, including multi-byte and invalid
+   UTF-8, quotes and keywords inside); nothing between the quotes of a string literal is layout; any
+   amount of any of the eight whitespace characters between tokens produces no token.  Each statement
+   holds for every chunking of the input (the *_chunked forms).  That redundant parentheses emit no code
+   is part of T2: the AST of Spec/Syntax.v has no parenthesis node, tested by t2check on every program. *)
+From BCL Require Import Model.Lexer Lib.Strconv Proofs.LexerProofs Proofs.LayoutProofs.
+Open Scope N_scope.
+
+Theorem C20_comment_extent : forall body e rest c fuel,
+  pending c = [] -> after c = body ++ e :: rest -> (e = 10 \/ e = 13) ->
+  (forall b, In b body -> b <> 10 /\ b <> 13) ->
+  (length body + 1 <= fuel)%nat ->
+  lex_line_comment fuel c = (true, mk [] (e :: rest) (gpos c + nlen body) 1 (lfs c) (out c)).
+Proof. first [exact LayoutProofs.C20_comment_extent | apply LayoutProofs.C20_comment_extent]. Qed.
+Print Assumptions C20_comment_extent.
+
+Theorem C20_comment_extent_eof : forall body c fuel,
+  pending c = [] -> after c = body ->
+  (forall b, In b body -> b <> 10 /\ b <> 13) ->
+  (length body + 1 <= fuel)%nat ->
+  lex_line_comment fuel c = (true, mk [] [] (gpos c + nlen body) 0 (lfs c) (out c)).
+Proof. first [exact LayoutProofs.C20_comment_extent_eof | apply LayoutProofs.C20_comment_extent_eof]. Qed.
+Print Assumptions C20_comment_extent_eof.
+
+Theorem C20_comment_extent_chunked : forall body tail c fuel,
+  unread c = body ++ tail -> eol_or_end tail ->
+  (forall b, In b body -> b <> 10 /\ b <> 13) ->
+  (length body + 1 <= fuel)%nat ->
+  fst (lex_line_comment fuel c) = true /\
+  abs (snd (lex_line_comment fuel c)) = (gpos c + nlen body, [], tail, width_at tail, out c).
+Proof. first [exact LayoutProofs.C20_comment_extent_chunked | apply LayoutProofs.C20_comment_extent_chunked]. Qed.
+Print Assumptions C20_comment_extent_chunked.
+
+Theorem C20_string_opaque : forall body rest c fuel,
+  pending c = [] -> before c = [34] -> after c = body ++ 34 :: rest ->
+  (forall b, In b body -> b <> 34 /\ b <> 92 /\ b <> 10) ->
+  first_not_alnum rest ->
+  (length body + 1 <= fuel)%nat ->
+  lex_quote fuel c =
+  (true, mk [] rest (gpos c + nlen body + 1) (snd (decode_rune rest)) (lfs c)
+            ({| ttyp := tSTR; tval := 34 :: body ++ [34]; terr := None;
+                tpos := gpos c + nlen body + 1 |} :: out c)).
+Proof. first [exact LayoutProofs.C20_string_opaque | apply LayoutProofs.C20_string_opaque]. Qed.
+Print Assumptions C20_string_opaque.
+
+Theorem C20_string_opaque_chunked : forall body rest c fuel,
+  before c = [34] -> unread c = body ++ 34 :: rest ->
+  (forall b, In b body -> b <> 34 /\ b <> 92 /\ b <> 10) ->
+  first_not_alnum rest ->
+  (length body + 1 <= fuel)%nat ->
+  fst (lex_quote fuel c) = true /\
+  abs (snd (lex_quote fuel c)) =
+    (gpos c + nlen body + 1, [], rest, snd (decode_rune rest),
+     {| ttyp := tSTR; tval := 34 :: body ++ [34]; terr := None;
+        tpos := gpos c + nlen body + 1 |} :: out c).
+Proof. first [exact LayoutProofs.C20_string_opaque_chunked | apply LayoutProofs.C20_string_opaque_chunked]. Qed.
+Print Assumptions C20_string_opaque_chunked.
+
+(* the value of such a literal is its body, byte for byte *)
+Theorem C20_unquote_plain : forall body,
+  (forall b, In b body -> b < 128 /\ b <> 10 /\ b <> 34 /\ b <> 92) ->
+  unquote (34 :: body ++ [34]) = Some body.
+Proof. first [exact LayoutProofs.unquote_plain_gen | apply LayoutProofs.unquote_plain_gen]. Qed.
+Print Assumptions C20_unquote_plain.
+
+Theorem C20_space_run : forall parts rest c fuel,
+  pending c = [] -> after c = concat parts ++ rest ->
+  parts <> [] -> Forall ws_char parts ->
+  is_space (peek_rune rest) = false ->
+  (length parts <= fuel)%nat ->
+  lex_start fuel c =
+  (true, mk [] rest (gpos c + nlen (concat parts)) (snd (decode_rune rest)) (lfs c) (out c)).
+Proof. first [exact LayoutProofs.C20_space_run | apply LayoutProofs.C20_space_run]. Qed.
+Print Assumptions C20_space_run.
+
+Theorem C20_space_run_chunked : forall parts rest c fuel,
+  unread c = concat parts ++ rest ->
+  parts <> [] -> Forall ws_char parts ->
+  is_space (peek_rune rest) = false ->
+  (length parts <= fuel)%nat ->
+  fst (lex_start fuel c) = true /\
+  abs (snd (lex_start fuel c)) =
+    (gpos c + nlen (concat parts), [], rest, snd (decode_rune rest), out c).
+Proof. first [exact LayoutProofs.C20_space_run_chunked | apply LayoutProofs.C20_space_run_chunked]. Qed.
+Print Assumptions C20_space_run_chunked.
+
+(* the eight whitespace characters *)
+Theorem C20_ws_chars : ws_chars = map encode_rune [32; 9; 11; 12; 10; 13; 133; 160].
+Proof. first [exact LayoutProofs.ws_chars_encode | apply LayoutProofs.ws_chars_encode]. Qed.
+Print Assumptions C20_ws_chars.
+
 Example C20_example :
-  pr_ok (parse_whole (bs "input") (bs "var x = 1 print x + 2 * 3")) = true.
+  map ttyp (fst (lex [bs "print" ++ [194; 160; 11; 12] ++ bs "1 # not ; a ( token" ++ [13] ++ bs "print ""# ; ( "" "])) = [tPRINT; tINT; tPRINT; tSTR; tEOF].
 Proof. vm_compute. reflexivity. Qed.
-Print Assumptions C20_example.
